@@ -201,7 +201,7 @@ def run(repo: Repo, chk: Check) -> None:
     vt_end_flag(repo, chk, "O4")
     chk.require_min("codec tables", 26)
     chk.require_min("reference tables", 18)
-    chk.require_min("decoder loops", 8)
+    chk.require_min("decoder loops", 6)
 
 
 # ------------------------------------------------------------------ O1 framing
